@@ -450,6 +450,8 @@ var c20FixedValid = []string{
 	"9223372036854775808ns0ns", "0ns9223372036854775808ns", "1h1h1h1h",
 	// three and more terms whose exact sum passes 2^64 (the running sum must be checked term by term)
 	"9223372036854775807ns9223372036854775807ns5ns", "2562047h2562047h2562047h", "106751d106751d106751d", "9223372036854775807ns9223372036854775807ns2ns",
+	// a part whose integer portion fits while integer + fraction does not, after earlier parts that fill the sum
+	"9223372036854775808ns2562047.9h", "9223372036854775807ns2562047.99999h", "2562047h2562047.9h2562047.9h", "0ns2562047.9h", "1ns9223372036854775807.9ns", "9223372036854775807.9ns",
 	"2562047h2562047h2562047h2562047h1h", "-9223372036854775807ns9223372036854775807ns9223372036854775807ns", "4611686018427387904ns4611686018427387904ns4611686018427387904ns4611686018427387904ns1ns", "100000d10h10m10s100ms100µs100ns", "-100000d10h10m10s100ms100µs100ns",
 }
 
